@@ -33,6 +33,8 @@ pub struct World {
     pub deliveries: Mutex<HashMap<String, Vec<String>>>,
     /// Record the characters of name fields and the decodability of page tokens (inputs scenarios).
     pub inputs: std::sync::atomic::AtomicBool,
+    /// The largest ack deadline (seconds) any CreateSubscription asked for (how long a drain must wait).
+    pub max_ack_secs: std::sync::atomic::AtomicU64,
     /// Keeps the instance alive.
     pub app: Deltio,
     pub start: Instant,
@@ -103,6 +105,7 @@ impl World {
             rec,
             deliveries: Mutex::new(HashMap::new()),
             inputs: std::sync::atomic::AtomicBool::new(false),
+            max_ack_secs: std::sync::atomic::AtomicU64::new(0),
             app,
             start,
         })
@@ -148,6 +151,7 @@ impl World {
             rec,
             deliveries: Mutex::new(HashMap::new()),
             inputs: std::sync::atomic::AtomicBool::new(false),
+            max_ack_secs: std::sync::atomic::AtomicU64::new(0),
             app,
             start,
         })
